@@ -52,6 +52,9 @@ def with_y(c, y, nd):
     return d
 
 
+HUGE = int(1.7976931348623157e308)
+
+
 def encode(vals, miss, placeholder):
     """vals: ints; miss: set of positions; placeholder: int or 'nan'/'inf'/'-inf' (nodata stays numeric then)"""
     return [placeholder if j in miss else v for j, v in enumerate(vals)]
@@ -102,6 +105,10 @@ def gen_links(tier, seed, rels):
                 if rel == "placeholder":
                     encs = [lo - 7, inside, hi + 11, 0 if 0 not in vals else hi + 3]
                     others = [with_y(c, encode(vals, miss, e), e) for e in rng.sample(encs, 2) if e != ndA]
+                    if variant != "vplc" and miss:
+                        # float cubes: the usual float nodata values (float64 / float32 maximum, 1e300) - their squares overflow
+                        e = rng.choice([HUGE, -HUGE, int(1e300), -int(3.4028234663852886e38)])
+                        others.append(with_y(c, encode(vals, miss, e), e))
                     if variant in ("gu", "pgu", "wcv", "wcvp") and miss:
                         for e in rng.sample(["nan", "inf", "-inf"], 2):
                             others.append(with_y(c, encode(vals, miss, e), ndA))   # nodata stays numeric; the cells are NaN / inf
